@@ -18,8 +18,12 @@ skip_confirm = "--skip-confirm" in sys.argv
 if "--checks" in sys.argv:
     checks = sys.argv[sys.argv.index("--checks") + 1].split(",")
 env = dict(os.environ, CARGO_TARGET_DIR="/tmp/mut-target", CARGO_NET_OFFLINE="true")
-def sh(cmd, cwd=None, timeout=3600):
-    p = subprocess.run(cmd, shell=True, cwd=cwd, stdout=subprocess.PIPE, stderr=subprocess.STDOUT, text=True, env=env, timeout=timeout)
+def sh(cmd, cwd=None, timeout=3600, plain_env=False):
+    # the shared target dir is only for the confirmation builds in the scratch worktree; the checks must build
+    # into the harness' own target directory
+    e = dict(os.environ, CARGO_NET_OFFLINE="true") if plain_env else env
+    e.pop("CARGO_TARGET_DIR", None) if plain_env else None
+    p = subprocess.run(cmd, shell=True, cwd=cwd, stdout=subprocess.PIPE, stderr=subprocess.STDOUT, text=True, env=e, timeout=timeout)
     return p.returncode, p.stdout
 d = f"{ROOT}/seeded/{name}"
 os.makedirs(d, exist_ok=True)
@@ -70,7 +74,7 @@ results = {}
 try:
     for c in checks:
         t0 = time.time()
-        rc, out = sh(f"python3 tools/check.py {c} --tier quick", cwd=ROOT, timeout=3600)
+        rc, out = sh(f"python3 tools/check.py {c} --tier quick", cwd=ROOT, timeout=3600, plain_env=True)
         viol = [l for l in out.splitlines() if l.startswith("VIOLATION")]
         msg = [l for l in out.splitlines() if l.startswith("implementation fails") or l.startswith("model and implementation") or l.startswith("proof obligation")]
         results[c] = {"exit": rc, "violation_lines": viol, "first_message": (msg[0][:500] if msg else ""), "wall_s": round(time.time() - t0, 1)}
